@@ -184,5 +184,8 @@ def check(ctx):
     con = repo.method("GeckoAsyncSpa", "_connect")
     started = any(isinstance(n, ast.Call) and call_name(n) == "add_task" and n.args and isinstance(n.args[0], ast.Call) and call_name(n.args[0]) == "_ping_loop" for n in ast.walk(con.node))
     ctx.ob("R3", "_connect::starts-ping-loop", started, "GeckoAsyncSpa._connect does not start the ping loop", con.loc)
+    ctx.rule("R4", "what a (re)connect downloads is the spa's block: the status-block transfer behind connect and refresh installs exactly the requested bytes or nothing, also when an attempt is abandoned part-way and retried (C01's async assembler model borrowed) - a necessary condition for 'values mirror the spa'")
+    from .c01 import async_assembly_model
+    async_assembly_model(ctx.borrowed("R4", "C01"), repo)
     ctx.note("NOT decided (the headline of the property): that recovery happens, within what time, after which fault scripts; that the facade's values mirror the spa afterwards. States that are terminal by design (CONNECTING after 'cannot find spa pack') are not flagged.")
     ctx.assume("a ping loop exists in the states named by the ping-received row (a connection was established before the error)")
